@@ -1,1 +1,90 @@
-/* further renames are appended here as model files are added */
+/* stdio / sockets (vfs.c) */
+FILE *v_fopen(const char *, const char *);
+int v_fclose(FILE *);
+int v_fflush(FILE *);
+int v_vfprintf(FILE *, const char *, va_list);
+int v_fprintf(FILE *, const char *, ...);
+int v_printf(const char *, ...);
+size_t v_fread(void *, size_t, size_t, FILE *);
+int v_ferror(FILE *);
+int v_feof(FILE *);
+void v_clearerr(FILE *);
+int v_fseek(FILE *, long, int);
+long v_ftell(FILE *);
+char *v_fgets(char *, int, FILE *);
+ssize_t v_getline(char **, size_t *, FILE *);
+int v_socket(int, int, int);
+int v_connect(int, const struct sockaddr *, socklen_t);
+ssize_t v_send(int, const void *, size_t, int);
+int v_close(int);
+int v_access(const char *, int);
+#ifdef feof
+#undef feof
+#endif
+#ifdef ferror
+#undef ferror
+#endif
+#define fopen(...)    v_fopen(__VA_ARGS__)
+#define fclose(...)   v_fclose(__VA_ARGS__)
+#define fflush(...)   v_fflush(__VA_ARGS__)
+#define vfprintf(...) v_vfprintf(__VA_ARGS__)
+#define fprintf(...)  v_fprintf(__VA_ARGS__)
+#define printf(...)   v_printf(__VA_ARGS__)
+#define fread(...)    v_fread(__VA_ARGS__)
+#define ferror(...)   v_ferror(__VA_ARGS__)
+#define feof(...)     v_feof(__VA_ARGS__)
+#define clearerr(...) v_clearerr(__VA_ARGS__)
+#define fseek(...)    v_fseek(__VA_ARGS__)
+#define ftell(...)    v_ftell(__VA_ARGS__)
+#define fgets(...)    v_fgets(__VA_ARGS__)
+#define getline(...)  v_getline(__VA_ARGS__)
+#define socket(...)   v_socket(__VA_ARGS__)
+#define connect(...)  v_connect(__VA_ARGS__)
+#define send(...)     v_send(__VA_ARGS__)
+#define close(...)    v_close(__VA_ARGS__)
+#define access(...)   v_access(__VA_ARGS__)
+
+/* identity / system (vsys.c) */
+uid_t v_getuid(void); uid_t v_geteuid(void); gid_t v_getgid(void); gid_t v_getegid(void);
+pid_t v_getpid(void); pid_t v_getppid(void); pid_t v_getsid(pid_t);
+int v_ttyname_r(int, char *, size_t);
+int v_stat(const char *, struct stat *);
+char *v_getcwd(char *, size_t);
+int v_gethostname(char *, size_t);
+int v_getlogin_r(char *, size_t);
+char *v_getenv(const char *);
+long v_sysconf(int);
+int v_getpwuid_r(uid_t, struct passwd *, char *, size_t, struct passwd **);
+int v_getgrgid_r(gid_t, struct group *, char *, size_t, struct group **);
+time_t v_time(time_t *);
+struct tm *v_localtime_r(const time_t *, struct tm *);
+size_t v_strftime(char *, size_t, const char *, const struct tm *);
+int v_gettimeofday(struct timeval *, void *);
+int v_strerror_r_xsi(int, char *, size_t);
+long v_syscall(long, ...);
+void *v_dlsym(void *, const char *);
+void v_exit(int);
+#define getuid(...)    v_getuid(__VA_ARGS__)
+#define geteuid(...)   v_geteuid(__VA_ARGS__)
+#define getgid(...)    v_getgid(__VA_ARGS__)
+#define getegid(...)   v_getegid(__VA_ARGS__)
+#define getpid(...)    v_getpid(__VA_ARGS__)
+#define getppid(...)   v_getppid(__VA_ARGS__)
+#define getsid(...)    v_getsid(__VA_ARGS__)
+#define ttyname_r(...) v_ttyname_r(__VA_ARGS__)
+#define stat(...)      v_stat(__VA_ARGS__)
+#define getcwd(...)    v_getcwd(__VA_ARGS__)
+#define gethostname(...) v_gethostname(__VA_ARGS__)
+#define getlogin_r(...) v_getlogin_r(__VA_ARGS__)
+#define getenv(...)    v_getenv(__VA_ARGS__)
+#define sysconf(...)   v_sysconf(__VA_ARGS__)
+#define getpwuid_r(...) v_getpwuid_r(__VA_ARGS__)
+#define getgrgid_r(...) v_getgrgid_r(__VA_ARGS__)
+#define time(...)      v_time(__VA_ARGS__)
+#define localtime_r(...) v_localtime_r(__VA_ARGS__)
+#define strftime(...)  v_strftime(__VA_ARGS__)
+#define gettimeofday(...) v_gettimeofday(__VA_ARGS__)
+#define strerror_r(...) v_strerror_r_xsi(__VA_ARGS__)
+#define syscall(...)   v_syscall(__VA_ARGS__)
+#define dlsym(...)     v_dlsym(__VA_ARGS__)
+#define exit(...)      v_exit(__VA_ARGS__)
